@@ -116,7 +116,11 @@ class Workspace:
 
     def reference(self, kind, k, d, opts=()):
         """bytes `wire gen` writes for this variant in a directory of its own (fresh checkout)"""
-        key = (kind, k, d.split("/")[-1], tuple(opts))
+        hdr_text = ""
+        if "-header_file" in opts:
+            hp = list(opts)[list(opts).index("-header_file") + 1]
+            hdr_text = open(hp).read() if os.path.exists(hp) else "<missing>"
+        key = (kind, k, d.split("/")[-1], tuple(opts), hdr_text)
         if key in self.ref:
             return self.ref[key]
         ws = Workspace()
